@@ -490,14 +490,34 @@ def run(ctx):
         for f in [session['pool'].submit(barrier.wait, 120) for _ in range(n)]:
             f.result()
 
+    def settle_session(session):
+        """Let every task that Copier.copy left unfinished in the long-lived loop run to its end, WITHOUT cancelling
+        anything (a long-lived loop just keeps running): a transfer cancelled while it was itself waiting for its own
+        cancelled children returns at once, and those children finish a few loop iterations later.  They belong to
+        this copy, so its writes are only complete once they are done.  -> number of such tasks"""
+        loop = session['loop']
+        left = [t for t in asyncio.all_tasks(loop) if not t.done()]
+        if left:
+            for t in left:
+                ctx.seen('hist_unfinished_task_kinds', f"{getattr(t.get_coro(), '__qualname__', type(t.get_coro()).__name__)} cancelling={t.cancelling()}")
+            loop.run_until_complete(asyncio.wait_for(asyncio.gather(*left, return_exceptions=True), 120))
+        return len(left)
+
     def close_session(session):
+        # the same shutdown as asyncio.run: cancel what is left, wait for it, close async generators, close the loop
+        loop = session['loop']
         try:
-            session['loop'].run_until_complete(session['rfs'].__aexit__(None, None, None))
+            loop.run_until_complete(session['rfs'].__aexit__(None, None, None))
         finally:
             try:
-                session['loop'].run_until_complete(session['loop'].shutdown_asyncgens())
+                left = [t for t in asyncio.all_tasks(loop) if not t.done()]
+                for t in left:
+                    t.cancel()
+                if left:
+                    loop.run_until_complete(asyncio.gather(*left, return_exceptions=True))
+                loop.run_until_complete(loop.shutdown_asyncgens())
             finally:
-                session['loop'].close()
+                loop.close()
                 session['pool'].shutdown(wait=True)
 
     def execute(case, pre, root, session=None):
@@ -542,7 +562,11 @@ def run(ctx):
             if session is None:
                 pool.shutdown(wait=True)  # no straggling writes after the snapshot
             else:
-                drain_session(session)  # the same
+                n_left = settle_session(session)
+                if n_left:
+                    ctx.count('hist_copies_that_left_unfinished_tasks')
+                    ctx.count('hist_unfinished_tasks_after_copy', n_left)
+                drain_session(session)  # no straggling writes after the snapshot
             if orig_part is None:
                 try:
                     del LocalAsyncFS.copy_part_size
@@ -1281,6 +1305,20 @@ def gen_history(rng, root):
 #  * Copier.copy(fs, sema, [t1, t2], return_exceptions=True) copies nothing: bounded_gather2(return_exceptions=True,
 #    cancel_on_error=True) raises ValueError, which is stored in the CopyReport.  No production caller passes
 #    return_exceptions=True (copy.py and hailtop/fs/router_fs.py use the default), so the monitor drives the default path.
+#  * (wave 9, history phase, long-lived loop) Copier.copy can raise while tasks it started are still unfinished:
+#    bounded_gather2_raise_exceptions(cancel_on_error=True) waits for its cancelled children in `finally: await
+#    asyncio.wait(tasks)`; when the task running it is ITSELF cancelled during that wait (a transfer with several sources
+#    fails in one source and, at the same moment, a sibling transfer fails and the outer gather cancels it), the wait is
+#    abandoned and the still-"cancelling" children (run_with_sema -> SourceCopier.copy -> gather(copy_as_file,
+#    copy_as_dir)) outlive Copier.copy.  Under asyncio.run they are collected at loop shutdown; in a long-lived loop
+#    (hailtop.fs RouterFS) they finish a few iterations later, and if that loop is closed first Python logs "Task was
+#    destroyed but it is pending" (seen once in ~5800 histories; the garbage-collected coroutine's __aexit__ then
+#    re-entered ThreadPoolExecutor.submit under its non-reentrant lock and hung that shard).  The harness now lets such
+#    tasks finish before it snapshots (settle_session; counters hist_unfinished_tasks_after_copy /
+#    hist_unfinished_task_kinds) and shuts the session loop down the way asyncio.run does.  Not a C22 clause (the call
+#    does raise the documented error, nothing outside the modelled targets is written); nearer to C20's error contract.
+#  * `Copier._copy_one_transfer` never retrieves the exception of its INFER_DEST `dest_type_task` when the source fails
+#    first ("Task exception was never retrieved ... _dest_type ... NotADirectoryError" in the shard logs): log noise only.
 #  * A missing source *below a regular file* (src/a/nope with src/a a file) raises NotADirectoryError (ENOTDIR from
 #    os.stat) rather than FileNotFoundError; the rules do not say which, the model accepts either.
 # --------------------------------------------------------------------------------------------------
